@@ -147,13 +147,15 @@ CHECKS = {
         "assumptions": ["a runtime.Stack state of 'select' inside lock.Lock means the caller is enqueued", "Go timers never fire early"],
     },
     "C15": {
-        "pkg": "locks", "run": "^TestC15", "level": "exploration",
+        "pkg": "locks", "run": "^TestC15", "level": "exploration", "overlay": "vsched", "tags": ["verifvsched"],
         "shards": {"quick": 4, "thorough": 16},
-        "technique": "model-based property-based testing on a deterministic, shrinkable step sequence with Cond.Wait parking observation",
+        "technique": "model-based property-based testing on a deterministic, shrinkable step sequence with Cond.Wait parking observation; concurrent acquire bursts (barrier-released goroutines) with rapid-drawn schedule perturbation at instrumented guard.go sites",
         "level_text": "Step lists of Start(waiting), Start(non-waiting), Release and duplicate/stale/foreign releases over 2-6 actors are checked after every step against a FIFO "
-                      "unique-ticket model: who returned, who is parked, and CanExecute(holder).",
-        "level_note": "Interleavings are made deterministic by waiting until each blocking acquire is observed parked; this samples sequentially-consistent step orders, not every "
-                      "memory-level interleaving inside guard.go.",
+                      "unique-ticket model: who returned, who is parked, and CanExecute(holder). A second facet releases 2-8 waiting / non-waiting acquirers from a barrier "
+                      "on a free or held guard under generated vsched plans: never two callers between a non-zero acquire and their release, CanExecute true for them, "
+                      "every waiting acquirer returns, a non-waiting 0 only with an overlapping acquire/hold, guard free after each round.",
+        "level_note": "The step facet samples sequentially-consistent step orders (each blocking acquire is observed parked); the burst facet perturbs real interleavings inside "
+                      "guard.go (prefix actions over all instrumented sites) but does not enumerate them: detection of a racy acquire path is probabilistic, a reported violation is real.",
         "assumptions": ["actors only know ids they were given"],
     },
     "C28": {
